@@ -373,7 +373,9 @@ func (g *c09Pool) transaction(b *jb, r *rand.Rand, o c09Opts) {
 		}
 		b.w(open)
 		b.sym(kAccount, acct, acct, false, "posting", 0)
-		trailing := o.tricky && r.IntN(4) == 0
+		// a single blank behind the account name, before ')' ']' ';': the account token ends with
+		// the name (fix-trailing-blank-ranges), so every session may have it
+		trailing := r.IntN(4) == 0
 		if trailing && cl != "" {
 			b.w(" ")
 		}
@@ -388,13 +390,9 @@ func (g *c09Pool) transaction(b *jb, r *rand.Rand, o c09Opts) {
 				c = &cc
 			}
 			more := r.IntN(3) == 0 && c != nil
-			if c != nil && c.text && (more || !o.tricky) {
+			if c != nil && c.text {
 				// a free-text commodity swallows the rest of the line: only write it last
 				more = false
-				if !o.tricky {
-					cc := c09Comms[3]
-					c = &cc
-				}
 			}
 			c09Amount(b, r, c, "amount", r.IntN(2) == 0)
 			endsWithText = c != nil && c.text
@@ -417,12 +415,16 @@ func (g *c09Pool) transaction(b *jb, r *rand.Rand, o c09Opts) {
 				}
 			}
 		}
-		if r.IntN(5) == 0 {
+		if r.IntN(5) == 0 || (endsWithText && r.IntN(2) == 0) || (!hasAmount && trailing && cl == "" && r.IntN(2) == 0) {
 			gap := pick(r, []string{"  ", "   "})
+			if endsWithText {
+				gap = pick(r, []string{" ", "  ", "   ", " \t"})
+			}
 			if !hasAmount && trailing && cl == "" {
-				gap = " " // single blank before ';': the account token's End lies past it
+				gap = " " // single blank before ';': the account token ends with the name, before it
 			}
 			if endsWithText {
+				// a commodity lexed as text followed by blanks: the token ends with its value
 				b.spans[len(b.spans)-1].Flags |= flTextTrail
 			}
 			b.w(gap + ";" + pick(r, []string{" ", ""}) + c09Comment(r, o.nbText))
@@ -472,9 +474,6 @@ func (g *c09Pool) directive(b *jb, r *rand.Rand, o c09Opts) {
 		}
 	case x < 6:
 		c := pick(r, g.comms)
-		if c.text && !o.tricky {
-			c = c09Comms[3]
-		}
 		b.w("commodity ")
 		if r.IntN(2) == 0 && !c.text {
 			c09FormatOf(b, r, c, "comdir", true)
@@ -486,6 +485,10 @@ func (g *c09Pool) directive(b *jb, r *rand.Rand, o c09Opts) {
 				fl = flQuoted
 			}
 			b.sym(kCommodity, c.sym, lex, true, "comdir", fl)
+			if c.text && r.IntN(2) == 0 {
+				// a text token followed by blanks: the directive's commodity ends with the symbol
+				b.w(pick(r, []string{" ", "  ", "   "}) + "; " + c09Comment(r, o.nbText))
+			}
 		}
 		b.w("\n")
 		if o.tricky && r.IntN(3) == 0 && !c.text {
